@@ -126,6 +126,9 @@ class Report:
 
     # ---- output -----------------------------------------------------------------------------
     def finish(self):
+        # event loops of helper threads that are collected while the interpreter shuts down complain about their already closed
+        # self-pipe ("Exception ignored in BaseEventLoop.__del__"): noise after the verdict line, silenced
+        sys.unraisablehook = lambda *a, **k: None
         cov = dict(self.coverage)
         if not cov.get("samples"):
             cov["samples"] = ["(none recorded)"]
